@@ -55,6 +55,19 @@ def main():
         ret = call(fi, o)
         return ["ok", buf.tobytes().hex(), fi.tell() - skip, o.tell()] + ([] if ret is None else [ret])
 
+    def items_view(out, typ):
+        """every decoded value as the hex of its bytes: object arrays item by item, fixed-width arrays from the array's
+        own buffer (an 'S<n>' ITEM would lose trailing NULs: that is numpy's scalar conversion, not the decoder)"""
+        if typ == "BOOLEAN":
+            return [int(x) for x in np.asarray(out).view(np.uint8)]
+        a = np.asarray(out)
+        if a.dtype.kind == "O":
+            return [None if x is None else (x.encode("utf-8", "surrogatepass").hex() if isinstance(x, str) else bytes(x).hex())
+                    for x in a]
+        k = a.dtype.itemsize
+        raw = np.ascontiguousarray(a).tobytes()
+        return [raw[i * k:(i + 1) * k].hex() for i in range(len(a))]
+
     def run(c):
         fn = c["fn"]
         if fn == "read_bitpacked":
@@ -113,6 +126,25 @@ def main():
         if fn == "read_plain":
             out = encoding.read_plain(bytes.fromhex(c["inp"]), c["type"], c["count"], c.get("width", 0))
             return ["ok", np.asarray(out).tobytes().hex(), len(out)]
+        if fn == "read_plain_t":
+            # encoding.read_plain through its dispatch, every physical type; the buffer the way the page readers hand it over
+            from fastparquet import parquet_thrift as pt
+            raw = bytes.fromhex(c["inp"]) + b"\xa5" * c.get("extra", 0)
+            if c["buf"] == "ndarray":
+                raw = np.frombuffer(raw, dtype=np.uint8).copy()
+            elif c["buf"] == "memoryview":
+                raw = memoryview(np.frombuffer(raw, dtype=np.uint8).copy())
+            out = encoding.read_plain(raw, getattr(pt.Type, c["type"]), c["count"], c["width"], utf=c["utf"], stat=c["stat"])
+            return ["ok", items_view(out, c["type"]), str(getattr(out, "dtype", type(out)))]
+        if fn == "ba_roundtrip":
+            from fastparquet import parquet_thrift as pt
+            items = [bytes.fromhex(x) for x in c["items"]]
+            src = [x.decode("utf-8") for x in items] if c["utf"] else items
+            packed = speedups.pack_byte_array(src) if not c["utf"] else speedups.pack_byte_array([x.encode("utf-8") for x in src])
+            a = np.frombuffer(packed, dtype=np.uint8).copy() if len(packed) else np.empty(1, dtype=np.uint8)[1:]
+            back = speedups.unpack_byte_array(a, len(items), utf=c["utf"])
+            back2 = encoding.read_plain(packed, pt.Type.BYTE_ARRAY, len(items), utf=c["utf"])
+            return ["ok", items_view(back, "BYTE_ARRAY"), items_view(back2, "BYTE_ARRAY")]
         if fn == "encode_dict":
             import pandas as pd
             from fastparquet import writer
@@ -158,7 +190,7 @@ def main():
             header = pt.PageHeader(type=0, uncompressed_page_size=len(page), compressed_page_size=len(page), data_page_header=daph)
             md = pt.ColumnMetaData(type=pt.Type.INT32, path_in_schema=["c"], codec=0, num_values=c["n"], encodings=[8],
                                    total_uncompressed_size=len(page), total_compressed_size=len(page), data_page_offset=0)
-            defi, rep, values = core.read_data_page(io.BytesIO(page), helper, header, md, selfmade=False)
+            defi, rep, values = core.read_data_page(io.BytesIO(page), helper, header, md, selfmade=bool(c.get("selfmade")))
             return ["ok", [int(x) for x in np.asarray(values)], None if defi is None else [int(x) for x in np.asarray(defi)],
                     str(np.asarray(values).dtype)]
         if fn == "page_v2_dict":
@@ -181,8 +213,13 @@ def main():
             class Ident:            # a dictionary whose entry number k is k: the output shows the decoded indices
                 def __getitem__(self, idx):
                     return np.asarray(idx).astype(np.int64)
-            assign = np.full(c["n"], -7, dtype=np.float64 if c["optional"] else np.int64)
-            core.read_data_page_v2(io.BytesIO(page), helper, col_se, h2, md, Ident(), assign, 0, False, 0, ph)
+            if c.get("use_cat"):
+                # categorical output: the page's indices ARE the result (codes array; nulls become -1)
+                assign = np.full(c["n"], -7, dtype=c["adt"])
+            else:
+                assign = np.full(c["n"], -7, dtype=np.float64 if c["optional"] else np.int64)
+            core.read_data_page_v2(io.BytesIO(page), helper, col_se, h2, md, Ident(), assign, 0, bool(c.get("use_cat")), 0, ph,
+                                   selfmade=bool(c.get("selfmade")))
             return ["ok", [None if (x != x) else int(x) for x in assign], None, str(assign.dtype)]
         if fn == "numpyio":
             # a small script of NumpyIO operations
